@@ -72,6 +72,18 @@ CHECKS = {
         "explanation": "walk + deck-draw stream",
         "assumptions": ["thread_rng / gen_range uniform"],
     },
+
+    "C04": {
+        "harness": ["c04"], "level": "proof",
+        "technique": "Coq refinement of the two payout loops to a layered fair-share pot specification (any number of players) + per-run replay of ledgers through the extracted model and specification",
+        "level_text": "Theorems over the executable model of Showdown::settle (nested loops on fuel) against a declarative layered-pot specification with rational fair shares, for every well-formed ledger of any size; per run the implementation is compared with the extracted model on every ledger and judged by the extracted specification (payout_ok) on every well-formed one: exhaustive for <= 4 players x commitments <= 4 x 3 states x 3 strengths, plus random 2-9 player ledgers.",
+        "level_note": "Trusted: Coq kernel, hand-written model (validated per run), extraction + glue (incl. Coq Q arithmetic extracted as is), harness. Strengths are an order-isomorphic ladder of 26 values.",
+        "rule": "sd: ledgers (commitment, state, strength level per seat); exhaustive 2,3,4 players x commitments 0..4 x {betting, all-in, folded} x 3 strength levels (5 players in thorough), random ledgers of 2-9 players with odd chips, multi-level ties, folded players between levels; a case is trivial when the ledger is not well-formed (the oracle skips it, the model is still compared)",
+        "exhaustive": {"quick": True, "thorough": True},
+        "explanation": "ledger -> settle() vs extracted model; extracted payout_ok on the implementation's rewards",
+        "trusted_base": ["Model/Showdown.v hand written; Spec/SpecPots.v written from the property text"],
+        "assumptions": ["chip totals stay below 2^15 (i16)"],
+    },
     "C15": {
         "harness": "c15", "level": "proof",
         "technique": "Coq theorems (round trips, injectivity, key-set NoDup by reflection) over an executable codec model + per-run model/implementation correspondence on integer codes",
